@@ -117,6 +117,8 @@ def gen_plan(rng, tier, idx, opts):
         elif r < 0.78:
             ops.append({"op": "clear"})
             first = True
+        elif r < 0.81:
+            ops.append({"op": "noise", "v": rng.choice([None, 1e-3, 0.1, 1.0]) if kind not in ("mmse", "maxsinr") else rng.choice([1e-3, 0.1, 1.0])})
         else:
             ops.append({"op": "read", "what": rng.sample(["F", "full_F", "W", "W_H", "full_W_H", "full_W", "Ns", "P", "cost"], rng.randint(1, 4))})
     return plan
@@ -147,7 +149,7 @@ def execute(plan):
     if kind != "closed":
         solver.max_iterations = plan["max_iterations"]
         solver.initialize_with = plan["init"]
-    cur = {"Ns": list(Ns)}
+    cur = {"Ns": list(Ns), "noise": plan["noise_var"]}
     m = {"P": np.ones(K), "F_def": False, "W_def": False, "aligned": False, "last_setter": None, "derived_read": set()}
     solves = 0
     setters_after_solve = 0
@@ -259,7 +261,7 @@ def execute(plan):
                     P = py_P(op["P"])
                     costs = []
                     equal_p = op["P"] is None or np.isscalar(op["P"]) or len(set(op["P"])) == 1
-                    mon = op.get("monitor") and kind in ("altmin", "minleak") and equal_p and not plan["noise_var"]
+                    mon = op.get("monitor") and kind in ("altmin", "minleak") and equal_p and not cur["noise"]
                     if mon:
                         orig = type(solver)._step
 
@@ -342,7 +344,7 @@ def execute(plan):
                     oldP = np.array(m["P"])
                     c0 = None
                     if (kind in ("altmin", "minleak") and m["F_def"] and m["W_def"] and m.get("cost_ok") and len(set(oldP)) == 1
-                            and not plan["noise_var"]):       # with noise the reported cost also contains the (power independent) noise term
+                            and not cur["noise"]):       # with noise the reported cost also contains the (power independent) noise term
                         c0 = float(np.real(solver.get_cost()))
                     solver.P = py_P(op["P"])
                     set_model_P(op["P"])
@@ -356,6 +358,10 @@ def execute(plan):
                                 c1, oldP[0], m["P"][0], c0, want), rel="cost_scaling")
                     m["last_setter"] = "P"
                     m["F_from_solve"] = False
+                elif o == "noise":
+                    ch.noise_var = op["v"]
+                    cur["noise"] = op["v"]
+                    m["cost_ok"] = False
                 elif o == "clear":
                     solver.clear()
                     cur["Ns"] = list(Ns)
@@ -375,7 +381,7 @@ def execute(plan):
                                 c = solver.get_cost()
                                 if not (np.real(c) >= -1e-9):
                                     viol("cost", step, "get_cost() = %r is negative" % (c,), rel="cost")
-                                elif kind == "minleak" and not plan["noise_var"]:
+                                elif kind == "minleak" and not cur["noise"]:
                                     fF, Wc = solver.full_F, solver.W
                                     ref = 0.0
                                     for k_ in range(K):
@@ -409,7 +415,7 @@ def execute(plan):
             raise
         except Exception as e:
             viol("completes", step, "%s raised %s: %s" % (o, type(e).__name__, str(e)[:240]), op=o, exc=type(e).__name__,
-                 uses_closed_form=bool(kind == "closed" or plan["init"] == "closed_form"), noise_free=not plan["noise_var"],
+                 uses_closed_form=bool(kind == "closed" or plan["init"] == "closed_form"), noise_free=not cur["noise"],
                  what=("lagrange_multiplier_search" if "Lagrange multiplier" in str(e) else None))
             break
         log.add(o, {k: v for k, v in op.items() if k != "op"})
